@@ -245,7 +245,8 @@ func genC20Sim(t *rapid.T) streamsCase {
 	}
 	npol := rapid.IntRange(1, 3).Draw(t, "npol")
 	for k := 0; k < npol; k++ {
-		st.S.CB = append(st.S.CB, cbPolicy{Take: rapid.SampledFrom([]int{0, 0, 1, 2, 7, 64}).Draw(t, "take")})
+		st.S.CB = append(st.S.CB, cbPolicy{Take: rapid.SampledFrom([]int{0, 0, 1, 2, 7, 64}).Draw(t, "take"),
+			More: rapid.SampledFrom([]int{0, 0, 0, 1, 5, 64}).Draw(t, "more")})
 	}
 	ends := []string{"open", "open", "ack-then-close", "peer-close", "peer-close", "server-closes-inside", "server-closer-thread"}
 	switch rapid.SampledFrom(ends).Draw(t, "end") {
@@ -272,6 +273,9 @@ func judgeC20Sim(c streamsCase, h *streamsHist, r *runCtx) {
 	}
 	tail := func() string { return fmt.Sprintf("\n%s\nlast scheduling points: %v", h.worldState(), h.sc.Tail(30)) }
 	ce, se := h.ends[0][0], h.ends[0][1]
+	if se.waitedInOnData > 0 {
+		r.Label("ondata-waited-for-more-bytes")
+	}
 	if se.maxInOnData > 1 {
 		r.Violf("OnData ran %d times concurrently for one stream%s", se.maxInOnData, tail())
 		return
